@@ -132,3 +132,97 @@ func vfC05_RelayUplink() {
 	}
 	vfReach("end")
 }
+
+// vfC05_RelayDownlink: the return path.  A small datagram first travels up (proxy client ->
+// our server sp -> outgoing client cp -> upstream), which creates the packers of both sessions;
+// then the upstream answers with a reply of symbolic size from the target, and the relay unpacks
+// it (client protocol cp) and re-packs it (server protocol sp) IN PLACE in a buffer laid out
+// exactly as relayNatConnToServerConnGeneric lays it out.  The reply unpacks, its source and
+// payload survive, the re-packed packet lies inside the buffer and respects the size limit of
+// the path back to the proxy client.
+//   cases: server (0..3), client (0..3)
+func vfC05_RelayDownlink() {
+	sp, cp := vfCase("server"), vfCase("client")
+	smtu, cmtu := vfInt("serverMTU"), vfInt("clientMTU")
+	vfAssume(smtu >= 1280 && smtu <= 9000 && cmtu >= 1280 && cmtu <= 9000)
+	pskS, pskC := vfBytes("pskServer", 16), vfBytes("pskClient", 16)
+	targetAP := netip.AddrPortFrom(netip.AddrFrom4([4]byte{203, 0, 113, 5}), vfU16("targetPort"))
+	if vfBool("target6") {
+		targetAP = netip.AddrPortFrom(netip.AddrFrom16([16]byte{0x20, 0x01, 0x0d, 0xb8, 15: 5}), targetAP.Port())
+	}
+	target := conn.AddrFromIPPort(targetAP)
+	clientAP := netip.AddrPortFrom(netip.AddrFrom4([4]byte{198, 51, 100, 7}), 40000)
+
+	// ---- uplink with a fixed 8-byte payload (its geometry is the subject of vfC05_RelayUplink)
+	peerPacker, _, _ := vfClientSide(sp, smtu, pskS)
+	ph := peerPacker.ClientPackerInfo().Headroom
+	pb := make([]byte, ph.Front+8+ph.Rear)
+	_, pstart, pn, err := peerPacker.PackInPlace(context.Background(), pb, target, ph.Front, 8)
+	vfAssert(err == nil, "small uplink packet packs")
+	cpacker, cunpacker, cmax := vfClientSide(cp, cmtu, pskC)
+	upHead := zerocopy.UDPRelayHeadroom(cpacker.ClientPackerInfo().Headroom, vfServerUnpackerHeadroom(sp))
+	ub := make([]byte, upHead.Front+pn+upHead.Rear)
+	copy(ub[upHead.Front:], pb[pstart:pstart+pn])
+	su := vfServerUnpacker(sp, pskS, ub[upHead.Front:upHead.Front+pn], target)
+	ta, ps, pl, err := su.UnpackInPlace(ub, clientAP, upHead.Front, pn)
+	vfAssert(err == nil && pl == 8, "uplink unpack")
+	serverConnPacker, err := su.NewPacker()
+	vfAssert(err == nil, "server packer")
+	_, s2, l2, err := cpacker.PackInPlace(context.Background(), ub, ta, ps, pl)
+	vfAssert(err == nil, "uplink re-pack")
+
+	// ---- the upstream's reply (payload of symbolic size from the target)
+	rlen := vfInt("replyLen")
+	vfAssume(rlen >= 0 && rlen <= 9000)
+	reply := vfBytes("reply", rlen)
+	var rpkt []byte
+	if cp == 3 {
+		rpkt = reply
+	} else {
+		uu := vfServerUnpacker(cp, pskC, ub[s2:s2+l2], target)
+		uh := vfServerUnpackerHeadroom(cp)
+		xb := make([]byte, uh.Front+l2+uh.Rear)
+		copy(xb[uh.Front:], ub[s2:s2+l2])
+		_, _, xl, err := uu.UnpackInPlace(xb, vfUpstream, uh.Front, l2)
+		vfAssert(err == nil && xl == 8, "upstream unpacks the relayed packet")
+		up, err := uu.NewPacker()
+		vfAssert(err == nil, "upstream packer")
+		rh := up.ServerPackerInfo().Headroom
+		rb := make([]byte, rh.Front+rlen+rh.Rear)
+		copy(rb[rh.Front:], reply)
+		rs, rl, err := up.PackInPlace(rb, targetAP, rh.Front, rlen, 65535)
+		vfAssert(err == nil, "upstream packs the reply")
+		rpkt = rb[rs : rs+rl]
+	}
+	n := len(rpkt)
+
+	// ---- the relay's downlink buffer, as relayNatConnToServerConnGeneric lays it out
+	maxClientPacketSize := zerocopy.MaxPacketSizeForAddr(smtu, clientAP.Addr())
+	headroom := zerocopy.UDPRelayHeadroom(serverConnPacker.ServerPackerInfo().Headroom, cunpacker.ClientUnpackerInfo().Headroom)
+	natConnRecvBufSize := cmax
+	vfAssume(n <= natConnRecvBufSize) // larger datagrams are truncated by the socket read and dropped on the flags check
+	packetBuf := make([]byte, headroom.Front+natConnRecvBufSize+headroom.Rear)
+	copy(packetBuf[headroom.Front:], rpkt)
+	pktSrc := vfUpstream
+	if cp == 3 {
+		pktSrc = targetAP
+	}
+	srcAP, payloadStart, payloadLength, err := cunpacker.UnpackInPlace(packetBuf, pktSrc, headroom.Front, n)
+	vfAssert(err == nil, "a genuine reply unpacks")
+	vfAssert(payloadLength == rlen, "reply payload length survives the unpack")
+	vfAssert(srcAP.Port() == targetAP.Port() && srcAP.Addr().Unmap() == targetAP.Addr(), "the reply's true source is attached")
+	packetStart, packetLength, err := serverConnPacker.PackInPlace(packetBuf, srcAP, payloadStart, payloadLength, maxClientPacketSize)
+	if err != nil {
+		vfAssert(errors.Is(err, zerocopy.ErrPayloadTooBig), "the only re-packing error is payload-too-big")
+		vfReach("toobig")
+		return
+	}
+	vfAssert(packetStart >= 0 && packetLength >= payloadLength && packetStart+packetLength <= len(packetBuf), "the re-packed reply lies inside the relay's packet buffer")
+	vfAssert(packetLength <= maxClientPacketSize, "the re-packed reply respects the size limit of the path to the proxy client")
+	w := vfInt("w")
+	vfAssume(w >= 0 && w < rlen)
+	if sp != 0 {
+		vfAssert(packetBuf[packetStart+packetLength-rlen+w] == reply[w], "reply payload bytes unchanged by unpack and re-pack")
+	}
+	vfReach("end")
+}
